@@ -1,2 +1,3 @@
 -- Root of the FastQr library: model, spec, proofs and property theorems.
-import FastQr.Model.Basic
+import FastQr.Props.C05
+import FastQr.Props.C09
